@@ -154,6 +154,8 @@ _c("CopyDataProbe", "probe", "Any", None, [], lambda d, w: d, recorded=False)
 # context processors
 _c("VCtxScale", "ctx", "Any", None, [("base", REQ), ("k", 3.0)], _ctxscale, created=("scaled",))
 _c("VCtxBadWriter", "ctx", "Any", None, [], _badwrite, created=("declared_only",), fault="undeclared_write")
+_c("VCtxBoom", "ctx", "Any", None, [("fuse", 1.0)], lambda d, w, fuse=1.0: _boom(d, w, fuse), fault="boom")
+_c("VCtxInterrupt", "ctx", "Any", None, [], _abort, fault="abort")
 # sinks
 _c("VFileSink", "sink", "Float", "Float", [("path", REQ)], lambda d, w, path: None)
 _c("VNullSink", "sink", "Float", "Float", [("tag", "t")], lambda d, w, tag="t": None)
@@ -458,7 +460,7 @@ def run_pipeline(nodes: list, data: Any = NODATA, ctx: Optional[dict] = None, *,
                 resolved[name] = default
                 nt.origins[name] = ("default", None)
             else:
-                if nm.shorthand and nm.shorthand[0] in ("delete", "rename"):
+                if nm.shorthand and nm.shorthand[0] == "delete":  # "if the key is present ... it is removed"
                     res.dontcare.append(("absent_key", nm.index))
                     if absent_delete == "noop":
                         resolved = None
